@@ -59,6 +59,7 @@ type hEntry struct {
 	Ok   bool   `json:"ok"`
 	Hdr  []hdrC `json:"hdr"`
 	Call int    `json:"call"`
+	Ck   string `json:"ck"` // kind of the Flame-level call: "" single method, "routes" Routes("M1,M2"), "any" Any()
 }
 
 type hop struct {
@@ -288,7 +289,7 @@ type treeExec struct {
 	named    map[int]string
 	lastCall map[int]*flamego.Route
 	curHdr   map[int][]hdrC // call -> constraints in force
-	emptyHdr bool           // send headers whose value is "" as present-but-empty instead of leaving them out
+	emptyHdr int            // how a header whose value is "" is sent: 0 left out, 1 present with "", 2 present with no values
 	last     serveOut       // what the handler of the current request observed (out of band: lossless, works for HEAD)
 }
 
@@ -432,7 +433,12 @@ func (x *treeExec) registerMulti(i int, es []hEntry) (accepted bool, detail stri
 		x.last = o
 		c.ResponseWriter().WriteHeader(200)
 	}
-	r := x.f.Routes(es[0].R.text(), strings.Join(ms, ","), h)
+	var r *flamego.Route
+	if es[0].Ck == "any" {
+		r = x.f.Any(es[0].R.text(), h) // the handle holds the leaves of all nine methods
+	} else {
+		r = x.f.Routes(es[0].R.text(), strings.Join(ms, ","), h) // the handle holds the LAST method's leaf only
+	}
 	for k := range es {
 		x.routes[i+k+1] = r
 	}
@@ -460,8 +466,10 @@ func (x *treeExec) serve(m, raw string, hdr map[string]string) (o serveOut) {
 		}
 		if v != "" {
 			h.Set(k, v)
-		} else if x.emptyHdr {
+		} else if x.emptyHdr == 1 {
 			h[http.CanonicalHeaderKey(k)] = []string{""} // the header is PRESENT with an empty value
+		} else if x.emptyHdr == 2 {
+			h[http.CanonicalHeaderKey(k)] = []string{} // the name is present with NO value at all
 		}
 	}
 	if x.via == "tree" {
@@ -778,15 +786,19 @@ func (x *treeExec) run(tr *traceWriter) {
 					a = false
 				}
 				x.accept = append(x.accept, a)
+				ck := c.H[k].Ck
+				if ck == "" {
+					ck = "routes"
+				}
 				tr.emit(map[string]interface{}{"ev": "AddRoute", "m": c.H[k].M, "r": encRoute(c.H[k].R), "accepted": a, "skipped": skipped,
-					"call": e.Call, "detail": encBytes(detail)})
+					"call": e.Call, "ck": ck, "detail": encBytes(detail)})
 			}
 			i = j
 			continue
 		}
 		acc, detail := x.register(i, e)
 		x.accept = append(x.accept, acc)
-		tr.emit(map[string]interface{}{"ev": "AddRoute", "m": e.M, "r": encRoute(e.R), "accepted": acc, "skipped": false, "call": e.Call, "detail": encBytes(detail)})
+		tr.emit(map[string]interface{}{"ev": "AddRoute", "m": e.M, "r": encRoute(e.R), "accepted": acc, "skipped": false, "call": e.Call, "ck": "single", "detail": encBytes(detail)})
 		i = j
 	}
 	for _, n := range c.Names {
@@ -870,7 +882,7 @@ func (x *treeExec) run(tr *traceWriter) {
 						raw := lead + strings.Join(p, "/")
 						if hk == "none" {
 							hdr["K"] = ""
-							x.emptyHdr = pi%2 == 1 // absent and present-but-empty must both leave the route invisible
+							x.emptyHdr = pi % 3 // absent, present-but-empty and present-without-values must all leave the route invisible
 						}
 						o := x.serve(m, raw, hdr)
 						exp := int(win[pi] - '0')
@@ -889,7 +901,7 @@ func (x *treeExec) run(tr *traceWriter) {
 	// (2) explicit requests
 	for qi, rq := range c.Reqs {
 		raw := decBytes(rq.Raw)
-		x.emptyHdr = qi%2 == 1
+		x.emptyHdr = qi % 3
 		o := x.serve(rq.M, raw, rq.H)
 		emitServe(rq.M, raw, rq.H, o)
 	}
